@@ -59,7 +59,14 @@ def run(ctx):
 
 
 def one_grammar(ctx, mon, g, alphabet, maxlen):
-    text = g.text(inline=ctx.rng.random() < 0.3)
+    meta = {}
+    if ctx.rng.random() < 0.3:
+        # {nops} / {nopse} switch a resolution strategy off for single productions; soundness must not care
+        for pi in range(len(g.prods)):
+            if ctx.rng.random() < 0.4:
+                meta[pi] = ctx.rng.choice(["nops", "nopse", "nops, nopse"])
+        ctx.count("grammars.with_nops_marks")
+    text = g.text(inline=ctx.rng.random() < 0.3, prod_meta=meta)
     if len(alphabet) >= 3 and maxlen > 4:
         maxlen = 4
     inputs = [(w, glrwork.relayout(w, ctx.rng) if ctx.rng.random() < 0.4 else w) for w in cfg.all_strings(alphabet, maxlen)]
